@@ -1063,6 +1063,52 @@ def search(res, tier, boost=False):
                 res.violation('C17:curves-share-cache-entry', dict(info, wrong=bad, files_in_directory=files,
                               max_abs_diff=float(np.abs(np.asarray(cold) - want).max())))
                 break
+        # one cache directory, the same set of elements in different orders (and a later run): every answer is the caller's own
+        # per-pair / per-element evaluation in the caller's order
+        from ..slchecks import cache_order_probe
+        mesh_o, elems_o = make_mesh('UnitSquare', 1, rng, 3)
+        els_o = elems_o[:14]
+        with silence_stdout():
+            ref_op = SingleLayerOperator(mesh_o)
+            ref_m0 = InitialOperator(bdr_mesh=mesh_o, u0=lambda xy: 1 + 0 * xy[0], initial_mesh=UnitSquareBoundaryRefined)
+        for nm, ph, got, lst in cache_order_probe(lambda d: SingleLayerOperator(mesh_o, cache_dir=d), lambda op, l: op.bilform_matrix(l, l), els_o, rng, tmp):
+            res.count(('cache-order', 'matrix', nm, ph), True)
+            with silence_stdout():
+                want = pairwise(ref_op, lst, lst)
+            if not bits_equal(got, want):
+                res.violation('C17:cache-changes-result:matrix:element-order', dict(order=nm, phase=ph, N=len(lst), max_abs_diff=float(np.abs(got - want).max()),
+                              note='one cache directory, the same elements requested in another order'))
+                break
+        for nm, ph, got, lst in cache_order_probe(lambda d: InitialOperator(bdr_mesh=mesh_o, u0=lambda xy: 1 + 0 * xy[0], initial_mesh=UnitSquareBoundaryRefined, cache_dir=d),
+                                                  lambda op, l: np.asarray(op.linform_vector(elems=l)).reshape(-1), els_o, rng, tmp):
+            res.count(('cache-order', 'vector', nm, ph), True)
+            with silence_stdout():
+                want = np.array([ref_m0.linform(e)[0] for e in lst])
+            if not np.array_equal(got, want):
+                res.violation('C17:cache-changes-result:vector:element-order', dict(order=nm, phase=ph, N=len(lst), got=[float(v) for v in got[:6]], want=[float(v) for v in want[:6]]))
+                break
+        # long-lived operators, re-created meshes (example.py --refinement uniform --grading): the matrix and the load vector the
+        # OLD operators deliver for the elements of the NEW mesh object equal per-pair / per-element evaluation by operators
+        # created on that mesh (anything the operators remember per element index would show from the second iteration on)
+        from ..slchecks import regrid_iterations
+        for k, mesh_k, els, old, fresh in regrid_iterations('UnitSquare', n_iter=2 if not thorough else 3, with_m0=lambda xy: 1 + 0 * xy[0]):
+            if k == 0:
+                with silence_stdout():
+                    old['SL'].bilform_matrix(els, els)
+                    old['M0'].linform_vector(elems=els)
+                continue
+            sub = els[:20]
+            info = dict(flow='graded uniform re-meshing', iteration=k, N=len(sub), mesh='new MeshParametrized object, operators from iteration 0')
+            with silence_stdout():
+                want = pairwise(fresh['SL'], sub, sub)
+                got_m = guarded(res, 'C17:real-leaf-raises:regrid', info, lambda: old['SL'].bilform_matrix(sub, sub))
+                want_v = np.array([fresh['M0'].linform(e)[0] for e in sub])
+                got_v = guarded(res, 'C17:vector-raises:regrid', info, lambda: np.asarray(old['M0'].linform_vector(elems=sub), dtype=float).reshape(-1))
+            res.count(('regrid', k), True)
+            if got_m is not None and not bits_equal(got_m, want):
+                res.violation('C17:long-lived-operator-differs:matrix', dict(info, max_abs_diff=float(np.abs(np.asarray(got_m) - want).max())))
+            if got_v is not None and not np.array_equal(got_v, want_v):
+                res.violation('C17:long-lived-operator-differs:vector', dict(info, got=[float(v) for v in got_v[:8]], want=[float(v) for v in want_v[:8]]))
         for pi, (curve, mesh_p, tests, trials, kw1, kw2) in enumerate(pairs):
             cache_dir = tempfile.mkdtemp(prefix='f7_%d_' % pi, dir=tmp)
             with silence_stdout():
